@@ -105,7 +105,7 @@ HISTORY = {
     'C10_K': 'caught by the angle-parameter rule on psfandgridconv (added in this round)',
     'C10_L': 'first only C02; C10 now demands that latitude and convergence are negated for the same spellings of the hemisphere argument',
     'C11_K': 'ANALYSIS-ERROR at first (the entry did not fold, the catalogue shrank); caught after dates became typed in C11',
-    'C12_K': 'NOT caught: the sign is lost only for a numpy.bool_ flag (negative numpy scalar operands) - an argument type outside the model',
+    'C12_K': 'missed at first (argument type: numpy scalars); caught by R-TYPE: a flag the callee tests by identity must be handed True / False themselves, not a comparison',
     'C14_J': 'missed at first; caught by R-DIV with every family coincident (same zone and same easting)',
     'C14_L': 'missed at first; caught by the rule on exceptions raised on the residual after the Newton loop',
     'C15_J': 'UNDECIDED at first; float(angle object) decided per class from __float__',
